@@ -88,6 +88,19 @@ Theorem C13_decrypt_error_sticky : forall dec r n cap r' n',
 Proof. exact c13_decrypt_error_sticky. Qed.
 Print Assumptions C13_decrypt_error_sticky.
 
+(* read_bounded + buffered-first: a poll_read that returns Ready(Ok) has put at most buf.remaining()
+   bytes into the caller's buffer; and when decrypted bytes are waiting in the payload buffer they are
+   what is handed out (the first min(remaining, buffered) of them, never an empty result that would
+   read as end of stream), without touching the transport, the frame buffer or the nonce *)
+Theorem C13_poll_read_bounded : forall dec r n cap r' n' out,
+  poll_read dec r n cap = Ok (r', n', PReady out) ->
+  length out <= cap /\
+  (0 < cap -> 0 < buf_len (r_payload r) ->
+   out = firstn (Nat.min cap (buf_len (r_payload r))) (buf_as_slice (r_payload r)) /\
+   out <> [] /\ r_got r' = r_got r /\ r_frame r' = r_frame r /\ n' = n).
+Proof. exact c13_poll_read_bounded. Qed.
+Print Assumptions C13_poll_read_bounded.
+
 (* the constants of stream.rs are an instance *)
 Theorem C13_real_constants : pc_ok MAX_PAYLOAD_LEN /\ FC MAX_PAYLOAD_LEN = MAX_PAYLOAD_LEN + 18.
 Proof. split; [exact real_pc_ok|exact (FC_val MAX_PAYLOAD_LEN (proj1 real_pc_ok))]. Qed.
